@@ -82,7 +82,7 @@ def rand_string(rng, hostile=True):
 def rand_attrs(rng):
     d = {}
     for _ in range(rng.choice([0, 0, 0, 1, 1, 2])):
-        d[rng.choice(["a", "b", "class", "href", "id"])] = rng.choice(["1", "2", "", 'q"<&>'])
+        d[rng.choice(["a", "b", "class", "href", "id"])] = rng.choice(["1", "2", "", 'q"<&>']) if rng.random() < 0.5 else rand_string(rng)
     return d
 
 
@@ -112,3 +112,40 @@ def rand_forest(rng, budget, depth=0):
 
 def size(ns):
     return sum(1 + (size(x.children) if isinstance(x, hn.Element) else 0) for x in ns)
+
+
+# a deliberately tiny alphabet: random forests over it merge (and refuse to merge) all the time
+TAGS_MERGY = TAGS_SMALL + [(["ol", "ul"], {}, True, None), (["ul"], {}, True, None), (["ul", "ol"], {}, False, None),
+                           (["ol"], {"a": "1"}, True, "-"), (["p", "ol"], {}, True, None)]
+
+
+def rand_forest_small(rng, budget, depth=0):
+    out = []
+    while budget > 0 and rng.random() < 0.9:
+        k = rng.random()
+        if k < 0.2 or depth > 5:
+            out.append(mk_leaf(rng.choice(LEAVES_SMALL)))
+            budget -= 1
+        else:
+            sub = rng.randint(0, max(0, budget - 1))
+            out.append(hn.Element(mk_tag(rng.choice(TAGS_MERGY)), rand_forest_small(rng, sub, depth + 1)))
+            budget -= 1 + sub
+    return out
+
+
+# two names and their alternatives only: deep chains of merges through `|` alternatives
+TAGS_TINY = [(["ul"], {}, True, None), (["ol"], {}, True, None), (["ul", "ol"], {}, True, None), (["ol", "ul"], {}, True, None),
+             (["ul"], {}, False, None), (["ol"], {}, True, "-")]
+
+
+def rand_forest_tiny(rng, budget, depth=0):
+    out = []
+    while budget > 0 and (rng.random() < 0.92 or not out):
+        if depth > 0 and rng.random() < 0.12:
+            out.append(mk_leaf(rng.choice(["x", None])))
+            budget -= 1
+        else:
+            sub = rng.randint(0, max(0, budget - 1)) if depth < 3 else 0
+            out.append(hn.Element(mk_tag(rng.choice(TAGS_TINY[:4] if rng.random() < 0.8 else TAGS_TINY)), rand_forest_tiny(rng, sub, depth + 1)))
+            budget -= 1 + sub
+    return out
